@@ -172,6 +172,12 @@ Proof.
   destruct Hin.
 Qed.
 
+Lemma ident_kind_kind : forall w rest, word_kind (ident_kind w rest) = true.
+Proof.
+  intros w [|d rest]; unfold ident_kind; [apply keyword_or_ident_kind|].
+  destruct ((128 <=? d) && is_nd_lead (utf8_lead d)); [reflexivity|apply keyword_or_ident_kind].
+Qed.
+
 Definition punct_kind (k : tk) : bool :=
   match k with
   | TComma | TSemi | TPlus | TMinus | TTimes | TDivide | TReminder | TLogicalNot | TBinaryNot
@@ -254,7 +260,7 @@ Proof.
     split; [reflexivity|]. split; [apply is_nl_eq; exact Hnl|reflexivity]. }
   destruct (is_ident_start c) eqn:Hid.
   { destruct (span_while is_ident_cont r) as [a b] eqn:E. injection H as <- <- <-.
-    destruct (word_kind_ok _ (keyword_or_ident_kind (c :: a))) as [K1 [K2 K3]].
+    destruct (word_kind_ok _ (ident_kind_kind (c :: a) b)) as [K1 [K2 K3]].
     eapply one_ok_span; [exact E|vm_compute; reflexivity|exact Hnl|assumption..]. }
   destruct (is_dec_start c) eqn:Hds.
   { destruct (span_while is_dec_digit r) as [a b] eqn:E. injection H as <- <- <-.
@@ -803,6 +809,15 @@ Proof.
   destruct Hd as [H0 [H1 H2]]. unfold punct2. rewrite H0, H1, H2, !andb_false_r. reflexivity.
 Qed.
 
+(* the kind of a word looks at the next character only if it is not ASCII *)
+Lemma ident_kind_app_stop : forall w b t, stops t = true -> ident_kind w (b ++ t) = ident_kind w b.
+Proof.
+  intros w [|e b] t Ht; [|reflexivity]. cbn [app]. destruct t as [|d t]; [reflexivity|].
+  assert (Hd : (128 <=? d) = false).
+  { destruct (stops_cases d t Ht) as [->|[->|[->|[->|[-> | ->]]]]]; reflexivity. }
+  unfold ident_kind. rewrite Hd. reflexivity.
+Qed.
+
 Definition extend (t : text) (o : option (option tk * text * text)) :=
   match o with Some (k, x, r) => Some (k, x, r ++ t) | None => None end.
 
@@ -816,7 +831,8 @@ Proof.
   destruct (is_nl c); [reflexivity|].
   destruct (is_ident_start c).
   { rewrite sw_app_stop by (apply stops_starts; try exact Ht; vm_compute; reflexivity).
-    destruct (span_while is_ident_cont u); reflexivity. }
+    destruct (span_while is_ident_cont u) as [a b]. cbn [extend].
+    rewrite (ident_kind_app_stop _ _ _ Ht). reflexivity. }
   destruct (is_dec_start c).
   { rewrite sw_app_stop by (apply stops_starts; try exact Ht; reflexivity).
     destruct (span_while is_dec_digit u); reflexivity. }
